@@ -1,6 +1,7 @@
 (* base.ml — S-expression reader, conversions between OCaml values and the
    extracted Coq datatypes. *)
 open Model
+type string = Stdlib.String.t
 
 type sexp = A of string | L of sexp list
 
@@ -84,7 +85,18 @@ let int_of_z = function Z0 -> 0 | Zpos p -> int_of_pos p | Zneg p -> - (int_of_p
 let int_of_n = function N0 -> 0 | Npos p -> int_of_pos p
 let rec nat_of_int n = if n <= 0 then O else S (nat_of_int (n-1))
 let rec int_of_nat = function O -> 0 | S n -> 1 + int_of_nat n
-let z_of_atom a = z_of_int (int_of_string a)
+(* arbitrary precision decimal <-> Z through the extracted arithmetic *)
+let z_of_atom (a : string) : z =
+  let neg = String.length a > 0 && a.[0] = '-' in
+  let st = if neg then 1 else 0 in
+  let ten = z_of_int 10 in
+  let acc = ref Z0 in
+  for i = st to String.length a - 1 do
+    acc := Z.add (Z.mul !acc ten) (z_of_int (Char.code a.[i] - 48))
+  done;
+  if neg then Z.opp !acc else !acc
+let string_of_z (z : z) : string =
+  String.concat "" (List.map (fun b -> String.make 1 (Char.chr (int_of_byte b))) (itoa z))
 
 (* result of checking one case *)
 type verdict =
